@@ -7,8 +7,12 @@ fp3 = {}
 p3 = os.path.join(V, "seeded", "ROUND3_FIRSTPASS.json")
 if os.path.exists(p3):
     fp3 = json.load(open(p3))
+fp4 = {}
+p4 = os.path.join(V, "seeded", "ROUND4_FIRSTPASS.json")
+if os.path.exists(p4):
+    fp4 = json.load(open(p4))
 def suite_of(rnd, name):
-    for base in ({1: "/tmp/seedval", 2: "/tmp/seedres2", 3: "/tmp/seedres3"}[rnd],):
+    for base in ({1: "/tmp/seedval", 2: "/tmp/seedres2", 3: "/tmp/seedres3", 4: "/tmp/seedres4"}[rnd],):
         f = os.path.join(base, name + ".json")
         if os.path.exists(f):
             t = open(f).read()
@@ -33,9 +37,9 @@ for d in sorted(glob.glob(os.path.join(V, "seeded", "C*")) + glob.glob(os.path.j
         meta["history"] = ("round 2, first pass without hints: " + ("caught" if r.get("check_exit") == 1 else f"MISSED (exit {r.get('check_exit')})")
                            + ("; scenario class then added to the harness" if r.get("check_exit") != 1 else ""))
     else:
-        r = fp3.get(key, {})
+        r = (fp3 if rnd == 3 else fp4).get(key, {})
         if r:
-            meta["history"] = ("round 3, first pass without hints: " + ("caught" if r.get("check_exit") == 1 else f"MISSED (exit {r.get('check_exit')})")
+            meta["history"] = (f"round {rnd}, first pass without hints: " + ("caught" if r.get("check_exit") == 1 else f"MISSED (exit {r.get('check_exit')})")
                                + ("; scenario class then added to the harness" if r.get("check_exit") != 1 else ""))
     conf = meta.setdefault("confirmed", {})
     if not conf.get("suite"):
